@@ -4,9 +4,9 @@ import runner_corr
 META = {
     "lean_modules": ["QVerif.Props.C08"],
     "drivers": ["Runner"],
-    "theorems": ['Runner.C08_can_always_complete', 'Runner.C08_no_deadlock', 'Runner.progress', 'Runner.step_complete', 'Runner.dinv_reachable'],
+    "theorems": ['Runner.C08_step_decreases_or_retries', 'Runner.C08_bounded_work', 'Runner.C08_can_always_complete', 'Runner.C08_no_deadlock', 'Runner.progress', 'Runner.step_complete', 'Runner.dinv_reachable'],
     "level": "proof",
-    "level_text": "Proof: can_always_complete — from every reachable state of the runner model (any threads/calls/interleaving/failing batches, timed waits firing early or late) some finite continuation reaches quiescence, via `progress` (an enabled step decreasing a lexicographic measure exists in every non-quiescent state satisfying the invariants); hence no deadlock and no doomed state. 'Every call returns' additionally needs a fair scheduler (assumption). Tied to the code by lock-step trace conformance.",
+    "level_text": "Proof: can_always_complete — from every reachable state of the runner model (any threads/calls/interleaving/failing batches, timed waits firing early or late) some finite continuation reaches quiescence, via `progress` (an enabled step decreasing a lexicographic measure exists in every non-quiescent state satisfying the invariants); hence no deadlock and no doomed state. Under ANY scheduler (no fairness assumed): every step strictly decreases the measure (callsLeft, sum of rank2) or is an iteration step of one of the two timed retry loops (entry retry a0-a9, executor drain g0-g3) that does not increase it (C08_step_decreases_or_retries), so every execution contains at most weight(s) steps that are not retry iterations (C08_bounded_work): a call can fail to return only if a thread iterates a timed retry loop forever, which is never forced (can_always_complete). What remains assumed for 'every call returns': the scheduler does not starve the threads that the retrying ones wait for. Tied to the code by lock-step trace conformance.",
     "level_note": "Trusted: Lean kernel + propext/Classical.choice/Quot.sound; the hand-written transition system Model/Runner.lean is tied to "
     "mutex_primitives.py by the sampled lock-step conformance only; semantics of threading.Lock/Condition as modelled by the cooperative "
     "primitives; scheduler fairness for liveness; the wrapped primitive returns or raises.",
